@@ -654,6 +654,64 @@ func c12rpc(c *Ctx, p *load.Program, idT *types.Named) {
 		R.Check("C12.rpc", R.Key("C12.rpc", shortFn(s.Fn), "alloc:VAAID"), c.sitePos(p, s), "the lookup identifier is built field-for-field from the request", len(bad) == 0, strings.Join(bad, "; "))
 	}
 	R.Floor("C12.rpc", len(seen), 3)
+	// the governance batch handler answers with one entry per VAA the store returned: the loop
+	// over the store's result puts every element into the response list (an intermediate table
+	// keyed by part of the identifier — the sequence alone — drops one of two VAAs that differ
+	// only in the target chain)
+	if gh := p.Method(pkgPublicRPC, "PublicrpcServer", "GetGovernanceVAABatch"); gh != nil {
+		nl := 0
+		for _, l := range facts.LoopsOf(gh) {
+			// the loop whose bound is the length of the store's result
+			overStore := false
+			for _, ins := range l.Header.Instrs {
+				iff, ok := ins.(*ssa.If)
+				if !ok {
+					continue
+				}
+				if bo, ok := iff.Cond.(*ssa.BinOp); ok {
+					if ln := lenOf(bo.Y); ln != nil && strings.Contains(facts.Term(ln), "(*N/db.Database).GetGovernanceVAABatch(") {
+						overStore = true
+					}
+				}
+			}
+			if !overStore {
+				continue
+			}
+			nl++
+			body := l.Body()
+			isPut := func(i ssa.Instruction) bool {
+				switch x := i.(type) {
+				case *ssa.Call:
+					if b, ok := x.Call.Value.(*ssa.Builtin); ok && b.Name() == "append" {
+						return true
+					}
+				case *ssa.Store:
+					if ia, ok := x.Addr.(*ssa.IndexAddr); ok {
+						if _, isSlice := ia.X.Type().Underlying().(*types.Slice); isSlice {
+							return true
+						}
+					}
+				}
+				return false
+			}
+			cuts := facts.Cuts{}
+			for _, lt := range l.Latches {
+				for k, sc := range lt.Succs {
+					if sc == l.Header {
+						cuts[facts.Edge{B: lt.Index, K: k}] = true
+					}
+				}
+			}
+			okAll := true
+			for _, lt := range l.Latches {
+				if !body[lt] || !facts.BeforeFrom(l.Header, lt.Instrs[len(lt.Instrs)-1], cuts, isPut) {
+					okAll = false
+				}
+			}
+			R.Check("C12.rpc", R.Key("C12.rpc", shortFn(gh), "one-entry-per-stored-vaa"), c.rel(p.Pos(instrPos(l.Header.Instrs[0]))), "every VAA returned by the store is put into the response list", okAll, "an iteration over the store's result does not add an entry to a list (the result goes through a table keyed by something narrower than the identifier)")
+		}
+		R.Floor("C12.rpc.governance-batch-loop", nl, 1)
+	}
 	// a well-formed request always reaches the store: the only exits before the lookup are a
 	// missing message id, an undecodable emitter address and an over-long batch. Rejecting on the
 	// value of a chain id (0 is the "all chains" target of governance VAAs) would make stored VAAs
